@@ -25,7 +25,7 @@ import (
 	"verif/harness/lp"
 )
 
-const rule = "cases = byte strings: every 1-2 byte string and 3-byte strings (sampled in quick, all in thorough) alone and followed by a valid tail; structure-aware random CBOR with lying lengths / reserved additional info / misplaced breaks / wrong tag contents / deep nesting; mutations of valid logger output; every cut point of valid multi-event streams. Entry points: Cbor2JsonManyObjects, DecodeIfBinaryToBytes/String, ConsoleWriter.Write, journald writer's Write (no journal socket in the sandbox: decoding and field conversion run, the send fails). oracle = call returns, no panic escapes, output <= 1 KiB + 64*len(input) and bytes allocated <= 64KiB + 64*len(input) + 6*len(output), prefix stability. non-trivial = input reaches a length-prefixed read, a tag handler or nesting depth >= 2 (header scan); distinct = FNV-64 of the input, enumerations by construction"
+const rule = "cases = byte strings: every 1-2 byte string and 3-byte strings (sampled in quick, all in thorough) alone and followed by a valid tail; structure-aware random CBOR with lying lengths / reserved additional info / misplaced breaks / wrong tag contents / deep nesting; mutations of valid logger output; every cut point of valid multi-event streams. Entry points: Cbor2JsonManyObjects, DecodeIfBinaryToBytes/String, ConsoleWriter.Write, journald writer's Write (no journal socket in the sandbox: decoding and field conversion run, the send fails). oracle = call returns, no panic escapes, output <= 1 KiB + 64*len(input) and bytes allocated <= 64KiB + 64*len(input) + 6*len(output), a returned result unchanged by a later decode, prefix stability. non-trivial = input reaches a length-prefixed read, a tag handler or nesting depth >= 2 (header scan); distinct = FNV-64 of the input, enumerations by construction"
 
 var rec = ev.New("C17", rule)
 
@@ -99,6 +99,9 @@ func call(f func()) (panicked string) {
 	return ""
 }
 
+// otherEvent is a valid binary event ({"other":"event","n":1234567}) decoded between two looks at an earlier result.
+var otherEvent = []byte{0xbf, 0x65, 'o', 't', 'h', 'e', 'r', 0x65, 'e', 'v', 'e', 'n', 't', 0x61, 'n', 0x1a, 0x00, 0x12, 0xd6, 0x87, 0xff}
+
 var console = zerolog.ConsoleWriter{Out: io.Discard, NoColor: true}
 
 // journal decodes the binary event and hands it to the journal socket, which does not exist in
@@ -136,6 +139,12 @@ func checkInput(in []byte, withConsole bool) *failure {
 	}, bound)
 	if pan != "" {
 		return &failure{"DecodeIfBinaryToBytes", hex.EncodeToString(in), pan}
+	}
+	// "decoded exactly": what a decode returned stays what it was when something else is decoded next
+	snap := append([]byte{}, b2...)
+	call(func() { zerolog.VerifDecodeIfBinaryToBytes(otherEvent) })
+	if !bytes.Equal(snap, b2) {
+		return &failure{"DecodeIfBinaryToBytes", hex.EncodeToString(in), fmt.Sprintf("the returned bytes changed when another event was decoded afterwards: first %.80q, now %.80q", snap, b2)}
 	}
 	if len(b2) > 1024+64*len(in) {
 		return &failure{"DecodeIfBinaryToBytes", hex.EncodeToString(in), fmt.Sprintf("%d output bytes for %d input bytes", len(b2), len(in))}
@@ -574,11 +583,14 @@ func checkCuts(all []byte, bounds []int) *cutFailure {
 	if len(lines) != len(bounds) {
 		return &cutFailure{hex.EncodeToString(all), bounds, len(all), fmt.Sprintf("full stream of %d events decoded to %d lines", len(bounds), len(lines))}
 	}
+	// cut points: every offset for streams up to 2500 bytes. Longer streams: every offset within 40
+	// bytes of a 4096-byte buffer boundary, within 2 bytes of a sample of event boundaries (all those
+	// near a buffer boundary or the end) and every 97th offset elsewhere — thinned out evenly when the
+	// total decoding work (sum of prefix lengths) would exceed 3*10^7 bytes, so that one stream holding
+	// several 64 KiB strings cannot take minutes
+	var cuts []int
 	for k := 0; k <= len(all); k++ {
 		if len(all) > 2500 {
-			// long streams: every offset within 40 bytes of a 4096-byte buffer boundary, within 2 bytes
-			// of a sample of event boundaries (all those near a buffer boundary or the end), and every
-			// 97th offset elsewhere
 			near := k%4096 < 40 || k%4096 > 4056
 			for _, b := range bounds {
 				if k-b <= 2 && b-k <= 2 && (b%7 == 0 || b > len(all)-300 || b%4096 < 200 || b%4096 > 3900) {
@@ -589,6 +601,20 @@ func checkCuts(all []byte, bounds []int) *cutFailure {
 				continue
 			}
 		}
+		cuts = append(cuts, k)
+	}
+	if work := int64(len(cuts)) * int64(len(all)) / 2; work > 30000000 {
+		keep := int(int64(len(cuts)) * 30000000 / work)
+		if keep < 50 {
+			keep = 50
+		}
+		thin := make([]int, 0, keep+1)
+		for i := 0; i < keep; i++ {
+			thin = append(thin, cuts[i*len(cuts)/keep])
+		}
+		cuts = append(thin, len(all))
+	}
+	for _, k := range cuts {
 		m := 0
 		atBoundary := k == 0
 		for _, b := range bounds {
